@@ -19,8 +19,10 @@ ProgsW1Low == {q \in ProgsW1 : \A f \in {"ann", "ns", "mapConst", "mapDefault", 
 
 \* the two configurations that reach every site the pinned commit leaked at (quick self-test of layer P)
 CfgP2    == {x \in ConfigsQuick : x.name \in {"go+reflection/patch", "fastgo+no_fmt"}}
-\* Full walks six leaky sites under reflection: explored with three configurations only
-CfgFull  == {x \in ConfigsQuick : x.name \in {"go+reflection", "fastgo+no_fmt", "go/dump"}}
+\* pairs of deviations under the pinned commit's table: without the plugin (its name table leaks for every program)
+CfgPW2   == {x \in ConfigsQuick : x.name \in {"go+reflection", "fastgo+no_fmt"}}
+\* Full walks six leaky sites under reflection (64 results per execution): explored without reflection
+CfgFull  == {x \in ConfigsQuick : x.name \in {"fastgo+no_fmt", "go/dump"}}
 
 Dirs2 == {"out1", "out2"}
 StaleAny  == SUBSET Dirs2
